@@ -371,7 +371,7 @@ fn script_symbols() -> Vec<Sym> {
     v
 }
 
-const USES: [Use; 5] = [Use::Add, Use::Drop, Use::Weight(-1.0), Use::Weight(0.5), Use::WeightTwice(3.0, 2.0)];
+const USES: [Use; 6] = [Use::Add, Use::Drop, Use::Weight(-1.0), Use::Weight(0.5), Use::WeightTwice(3.0, 2.0), Use::Partial];
 
 /// Runs one script on the real reader and compares what every call returned and the accumulated
 /// spectrum with the reference: each record contributes its own row times the weight it was used
@@ -445,6 +445,8 @@ fn eval_script(setup: &str, project: &Option<Vec<usize>>, syms: &[Sym], uses: &[
         "after-error"
     } else if syms.contains(&Sym::End) {
         "after-end"
+    } else if uses.iter().any(|u| *u == 5) {
+        "partly-consumed-site"
     } else if uses.iter().any(|u| *u == 1) {
         "dropped-site"
     } else if uses.iter().any(|u| *u != 0) {
@@ -491,7 +493,7 @@ pub(super) fn scripts_for(prop: &str, which: &str, tier: Tier) -> (u64, Vec<Viol
                 continue;
             }
             let use_sets: Vec<Vec<usize>> = if which == "projected-weights" {
-                if n_rows <= 2 { sequences(USES.len(), n_rows, n_rows) } else { (0..USES.len()).map(|u| vec![u; n_rows]).chain([vec![1, 0, 2], vec![2, 1, 3], vec![4, 0, 1]]).collect() }
+                if n_rows <= 2 { sequences(USES.len(), n_rows, n_rows) } else { (0..USES.len()).map(|u| vec![u; n_rows]).chain([vec![1, 0, 2], vec![2, 1, 3], vec![4, 0, 1], vec![5, 0, 5]]).collect() }
             } else if which == "accounting" {
                 // sites added as they come, and every site retracted (weight -1)
                 vec![vec![0; n_rows], vec![2; n_rows]]
@@ -700,7 +702,7 @@ pub fn run(tier: Tier) -> i32 {
             for seq in sequences(symbols.len(), 1, max_len) {
                 let n_rows = seq.iter().filter(|i| matches!(symbols[**i], Sym::Kind(_))).count();
                 // uses: every assignment for up to two record symbols, the diagonal for more
-                let use_sets: Vec<Vec<usize>> = if n_rows <= 2 { sequences(USES.len(), n_rows, n_rows) } else { (0..USES.len()).map(|u| vec![u; n_rows]).chain([vec![1, 0, 2], vec![0, 1, 0], vec![2, 1, 3], vec![4, 0, 1]]).collect() };
+                let use_sets: Vec<Vec<usize>> = if n_rows <= 2 { sequences(USES.len(), n_rows, n_rows) } else { (0..USES.len()).map(|u| vec![u; n_rows]).chain([vec![1, 0, 2], vec![0, 1, 0], vec![2, 1, 3], vec![4, 0, 1], vec![5, 0, 5]]).collect() };
                 for us in use_sets {
                     jobs.push((si, seq.clone(), us));
                 }
@@ -724,7 +726,7 @@ pub fn run(tier: Tier) -> i32 {
             name: "lib: scripts over the public reader interface".into(),
             evaluations: jobs.len() as u64,
             nontrivial: jobs.len() as u64,
-            note: format!("every sequence of 1..{max_len} symbols over {{six record kinds, a record with a non-diploid genotype in the first / third column, a transient I/O error of the source, the source reporting its end early, a change of the column layout}} x the ways of using the sites handed out {{add, drop, weight -1, weight 0.5, weight 3 then 2}} x 6 set-ups, read_site called two more times than there are steps: every call returns what its own step implies and the spectrum is the weighted sum of the rows' own contributions ({} scripts)", jobs.len()),
+            note: format!("every sequence of 1..{max_len} symbols over {{six record kinds, a record with a non-diploid genotype in the first / third column, a transient I/O error of the source, the source reporting its end early, a change of the column layout}} x the ways of using the sites handed out {{add, drop, weight -1, weight 0.5, weight 3 then 2, added into a one-cell spectrum that is thrown away}} x 6 set-ups, read_site called two more times than there are steps: every call returns what its own step implies and the spectrum is the weighted sum of the rows' own contributions ({} scripts)", jobs.len()),
             exhaustive: true,
             extra: vec![("depth_bound".into(), J::u(max_len))],
         });
